@@ -178,7 +178,7 @@ impl std::fmt::Display for Reentrant<'_> {
     }
 }
 
-static SWITCH_TZ: std::sync::atomic::AtomicBool = std::sync::atomic::AtomicBool::new(false);
+static PREBUILT: std::sync::Mutex<Option<PatternEncoder>> = std::sync::Mutex::new(None);
 static POISON: std::sync::atomic::AtomicBool = std::sync::atomic::AtomicBool::new(false);
 
 /// the process's time zone changes (TZ is re-read by chrono's Local on every call); the zone stays
@@ -261,13 +261,9 @@ fn body(case: &Val) -> Val {
     let intr = if CASE_NO.fetch_add(1, std::sync::atomic::Ordering::SeqCst) % 2 == 1 { 2 } else { 0 };
     // mode 5: the encoder is BUILT, then the process's time zone changes, then the encoder is USED (an
     // encoder lives as long as its appender: across every DST switch of the process's life)
-    let prebuilt: Option<PatternEncoder> = if SWITCH_TZ.swap(false, std::sync::atomic::Ordering::SeqCst) {
-        let e = std::panic::catch_unwind(|| PatternEncoder::new(&pattern)).ok();
-        switch_tz();
-        e
-    } else {
-        None
-    };
+    // (built by `run` on ANOTHER thread, before the zone changed: chrono caches the zone per thread for a second,
+    // so the thread that encodes must not be the one that looked at the clock under the old zone)
+    let prebuilt: Option<PatternEncoder> = PREBUILT.lock().unwrap().take();
     // mode 9: on this thread a record whose message fails half-way inside aligned / truncated fields was
     // encoded (and the failure survived) before the observed record
     if POISON.swap(false, std::sync::atomic::Ordering::SeqCst) {
@@ -430,7 +426,13 @@ fn run(case: &Val) -> Val {
     if case.l()[0].n() == 5 {
         // mode 5: the process's time zone changes AFTER the encoder was built (see `body`); the case is
         // handed on as mode 1 with the flag below
-        SWITCH_TZ.store(true, std::sync::atomic::Ordering::SeqCst);
+        let pattern = cps(&case.l()[1]);
+        let built = std::thread::spawn(move || std::panic::catch_unwind(|| PatternEncoder::new(&pattern)).ok())
+            .join()
+            .ok()
+            .flatten();
+        *PREBUILT.lock().unwrap() = built;
+        switch_tz();
         let mut items = case.l().to_vec();
         items[0] = Val::N(1);
         case = Val::L(items);
